@@ -223,16 +223,41 @@ def random_blocks(R: random.Random) -> List[Tuple[str, List[str], List[str]]]:
 
 
 # ---------------------------------------------------------------- executor path
+def build_query(blocks, placement) -> str:
+    """blocks as add_job_script metadata.  placement None: all on the dataset; else one of 'ds', 'after_where', 'inner_collection',
+    'discarded_element' per block (metadata may ride on any sub-expression of the query, also on one that tuple resolution removes)."""
+    placement = placement or ["ds"] * len(blocks)
+
+    def wrap(expr, where):
+        for (n, s, d), p in zip(blocks, placement):
+            if p == where:
+                expr = f"MetaData({expr}, {{'metadata_type': 'add_job_script', 'name': {n!r}, 'script': {s!r}, 'depends_on': {d!r}}})"
+        return expr
+    q = wrap("ds", "ds")
+    if "after_where" in placement:
+        q = wrap(f"Where({q}, lambda e: e.EventInfo('EventInfo').runNumber() > 0)", "after_where")
+    ev = "e"
+    if "discarded_element" in placement:
+        carrier = wrap("e0.Jets('Carrier')", "discarded_element")
+        q = f"Select({q}, lambda e0: ({carrier}, e0))"
+        ev = "t"
+    jets = wrap(ev_expr(ev) + ".Jets('J')", "inner_collection")
+    body = f"({jets}.Count(), {ev_expr(ev)}.EventInfo('EventInfo').runNumber())"
+    return f"Select({q}, lambda {ev}: {body})"
+
+
+def ev_expr(ev: str) -> str:
+    return "t[1]" if ev == "t" else "e"
+
+
 def executor_worker(args: Dict[str, Any]) -> Dict[str, Any]:
     "blocks -> add_job_script metadata -> real executor -> rendered ATestRun_eljob.py region"
     from ..xlate import translate_job
 
     blocks = args["blocks"]
-    q = "ds"
-    for n, s, d in blocks:
-        q = f"MetaData({q}, {{'metadata_type': 'add_job_script', 'name': {n!r}, 'script': {s!r}, 'depends_on': {d!r}}})"
-    q = f"Select({q}, lambda e: e.EventInfo('EventInfo').runNumber())"
-    res = translate_job({"backend": "atlas", "query": q.replace("ds", "ds", 1), "out": args["out"]})
+    q = build_query(blocks, args.get("placement"))
+    pre = [build_query(b, None) for b in args.get("pre_blocks", [])]
+    res = translate_job({"backend": "atlas", "query": q, "out": args["out"], "pre_queries": pre})
     exp = expected_outcome(blocks)
     if res["status"] != "ok":
         ok = exp[0] == "error" and res["exc"]["type"] == "ValueError"
@@ -285,6 +310,17 @@ def run(ctx: Ctx) -> int:
     for i in range(ctx.pick(40, 300)):
         bl = random_blocks(R)[: R.choice([2, 4, 8])]
         ereqs.append({"fn": "vf.props.c15:executor_worker", "args": {"blocks": bl, "out": str(ctx.scratch / f"exe{i}")}})
+    # blocks riding on different parts of the query, and a second query on an executor that has just handled (or refused) another block set
+    for i in range(ctx.pick(40, 300)):
+        bl = random_blocks(R)[: R.choice([2, 3, 5])]
+        pl = [R.choice(["ds", "after_where", "inner_collection", "discarded_element"]) for _ in bl]
+        ereqs.append({"fn": "vf.props.c15:executor_worker", "args": {"blocks": bl, "placement": pl, "out": str(ctx.scratch / f"exep{i}")}})
+    for i in range(ctx.pick(30, 200)):
+        bl = random_blocks(R)[: R.choice([1, 2, 4])]
+        pre = [random_blocks(R)[: R.choice([1, 3, 6])] for _ in range(R.choice([1, 1, 2]))]
+        ereqs.append({"fn": "vf.props.c15:executor_worker", "args": {"blocks": bl, "pre_blocks": pre, "out": str(ctx.scratch / f"exes{i}")}})
+        ctx.count("same_executor_sequences")
+        ctx.count("earlier_block_sets_refused", sum(1 for p in pre if expected_outcome(p)[0] == "error"))
     for r, q in zip(run_batch(ereqs, ctx.scratch), ereqs):
         if "why" not in r:
             ctx.inconclusive.append(f"executor worker failed: {r}"[:300])
@@ -292,7 +328,8 @@ def run(ctx: Ctx) -> int:
         ctx.count("executor_renderings")
         ctx.count("evaluations")
         if r["why"]:
-            ctx.violation({"blocks": q["args"]["blocks"], "path": "executor"}, "rendered job options: " + r["why"] + f" :: blocks={q['args']['blocks']!r:.400}")
+            ctx.violation({"blocks": q["args"]["blocks"], "path": "executor", "placement": q["args"].get("placement"), "pre_blocks": q["args"].get("pre_blocks")},
+                          "rendered job options: " + r["why"] + f" :: blocks={q['args']['blocks']!r:.300} placement={q['args'].get('placement')} earlier block sets on the same executor={q['args'].get('pre_blocks')!r:.200}")
     if ctx.counters["contract_evaluations"] == 0:
         ctx.inconclusive.append("the contract on generate_script_block was never evaluated")
     ctx.extra["outcome_classes"] = len(classes)
